@@ -10,6 +10,41 @@ TECH = ("contract-based deductive verification: own VC generator (txvc) symbolic
 
 # pid -> (level text, level note, design ref, technique suffix)
 CLAIMED = {
+    "C01": (
+        "Partial - the TRANSLATION from grammar constructs to Arpeggio expressions and the attribute defaults, not "
+        "Arpeggio's PEG interpreter. Proved: visit_assignment's operator statement (`+=` builds OneOrMore over exactly "
+        "the right-hand side named __asgn_oneormore with multiplicity 1..*; `*=` ZeroOrMore / __asgn_zeroormore with 0..* "
+        "unless already 1..*; `?=` Optional / __asgn_optional with 0..1, a boolean attribute of type BOOL; `=` Sequence / "
+        "__asgn_plain leaving the multiplicity; exactly one expression is built); the modifier statements of "
+        "visit_assignment and visit_repeatable_expr (modifiers are rejected for `=`, `?=`, `?`; otherwise sep is the "
+        "written separator or None and eolterm is set exactly when written, independently of sep); per attribute of "
+        "TextXMetaModel._init_obj_attrs (a fresh empty list exactly for multiplicity 0..* / 1..*, the base type's "
+        "default only with auto_init_attributes, False only for a `?=` attribute without it, else None); the terminal "
+        "branch of process_node (the matched text or group 1 under use_regexp_group reaches the match processor "
+        "unchanged, with rule name and location). NOT covered: sequences, choices, predicates, suppression, rule "
+        "references, the recursion of process_node, whitespace (C22) and everything Arpeggio does with the expressions; "
+        "a bounded battery (15 grammars, 29 inputs: optional, repetitions with separators and eolterm, unordered groups, "
+        "predicates, suppression, abstract alternatives, regex groups, auto_init on/off) compares acceptance and model "
+        "with hand-written expectations, reported separately.",
+        "Partial claim by design (DESIGN.md 5/C01): the acceptance relation is Arpeggio's (T-ARP). The denotation of the "
+        "Arpeggio constructors is an assumption (A den).",
+        "DESIGN.md 5/C01, 11.10", "bounded battery with the real parser for everything not under contract"),
+    "C03": (
+        "Proved: textx_isinstance(obj, R) equals the conformance relation of the statement (obj's rule is R, R is "
+        "OBJECT, or obj's rule is reachable from R through _tx_inh_by), by unfold-once with the recursion used through "
+        "its own contract (partial correctness); the abstract-rule and match-rule branch of process_node (a region "
+        "unit): a match rule yields the value of process_match and creates no object; an abstract rule never "
+        "instantiates its own class - a single child is passed through, otherwise the child handed on is a "
+        "non-Terminal, a reference to a non-match rule is preferred (loop invariant: everything skipped before it is a "
+        "match rule) and a match-rule reference is used only when every reference of the alternative is one; without any "
+        "rule reference the text is concatenated. TWO KNOWN FINDINGS (bounded battery): textx_isinstance does not "
+        "terminate on a directly recursive abstract rule (A: B | '(' A ')'), and an alternative with only match rules "
+        "yields its FIRST match reference, not the concatenated text (pinned by test_issue166, not repairable here). "
+        "NOT under contract: _determine_rule_types (the fixpoint that computes rule kinds and _tx_inh_by) - the battery "
+        "(3 grammars with nested / recursive abstract rules, 14 conformance queries) is its only check.",
+        "Partial. Termination of textx_isinstance needs acyclic _tx_inh_by (assumed; violated by the first known "
+        "finding). One defect repaired: 438e637 (class compared with a string in the child selection).",
+        "DESIGN.md 5/C03, 11.10", "bounded battery for rule kinds and the two recorded deviations"),
     "C23": (
         "Exception-type contracts (wd=True: every partial primitive forks its implicit exception; "
         "allowed_exc=['TextXError']: anything else leaving the function is a failed WD obligation) on the visitor "
